@@ -1639,3 +1639,39 @@ Proof.
   rewrite (live_det _ _ _ _ _ _ _ Lx L1). rewrite (live_det _ _ _ _ _ _ _ Ly L2).
   eapply SV; eauto; congruence.
 Qed.
+
+(* the hypotheses of the partial theorems are met by a concrete image: two intact two-cell entries *)
+Definition img_two : list dslot :=
+  [DHdr (mkHdr 1 0 300 100 1 0 2) (MOk true 1 0 0 false 75);
+   DHdr (mkHdr 2 0 0 50 4 1 3) (MOk true 2 0 0 false 75);
+   DHdr (mkHdr 1 0 0 200 1 0 (-1)) MBad;
+   DHdr (mkHdr 2 0 0 60 4 1 (-1)) MBad].
+
+Lemma cell_img_two : forall x d, cell img_two x = Some d ->
+  (x = 0 /\ d = DHdr (mkHdr 1 0 300 100 1 0 2) (MOk true 1 0 0 false 75)) \/
+  (x = 1 /\ d = DHdr (mkHdr 2 0 0 50 4 1 3) (MOk true 2 0 0 false 75)) \/
+  (x = 2 /\ d = DHdr (mkHdr 1 0 0 200 1 0 (-1)) MBad) \/
+  (x = 3 /\ d = DHdr (mkHdr 2 0 0 60 4 1 (-1)) MBad).
+Proof.
+  intros x d H. unfold cell in H. destruct (x <? 0) eqn:E; [discriminate|].
+  assert (X : x = 0 \/ x = 1 \/ x = 2 \/ x = 3 \/ 4 <= x) by lia.
+  destruct X as [->|[->|[->|[->|X]]]]; cbn in H; try (inversion H; subst; tauto).
+  exfalso. assert (N : (length img_two <= Z.to_nat x)%nat) by (cbn; lia).
+  apply nth_error_None in N. congruence.
+Qed.
+
+Lemma img_two_hypotheses : no_cross_key_links 262144 img_two /\ meta_keys_match img_two /\
+  holds_after 262144 false img_two (fun s =>
+    readable (ents s 1) = true /\ chain_of s (a_start (ents s 1)) [0; 2] /\
+    readable (ents s 2) = true /\ chain_of s (a_start (ents s 2)) [1; 3] /\ a_swapsz (ents s 2) = 110).
+Proof.
+  split; [|split].
+  - intros x y hx mx hy my (Cx&_) (Cy&_) Nx.
+    apply cell_img_two in Cx. apply cell_img_two in Cy.
+    destruct Cx as [(->&Dx)|[(->&Dx)|[(->&Dx)|(->&Dx)]]]; inversion Dx; subst; cbn in *;
+    destruct Cy as [(Ey&Dy)|[(Ey&Dy)|[(Ey&Dy)|(Ey&Dy)]]]; inversion Dy; subst; cbn; try lia; auto.
+  - intros x h mk0 mk1 sz pr hl C. apply cell_img_two in C.
+    destruct C as [(->&D)|[(->&D)|[(->&D)|(->&D)]]]; inversion D; subst; cbn; auto.
+  - unfold holds_after. set (r := rebuild _ _ _). vm_compute in r. subst r. cbv beta iota.
+    repeat split; cbn; lia.
+Qed.
